@@ -302,8 +302,9 @@ def gen_plain(rng, allow_take=True, max_terms=3, product_only=False, min_ranks=0
             tags.append("take%d" % len(factors))
             if any(len(f[2]) == 0 for f in factors):
                 tags.append("take_rank0_operand")
-        elif rng.random() < 0.3:
-            factors.insert(rng.randint(0, len(factors)), ("s", rng.choice(["a", "b"])))
+        elif rng.random() < 0.4:
+            for _ in range(rng.choice([1, 1, 2])):
+                factors.insert(rng.randint(0, len(factors)), ("s", rng.choice(["a", "b"])))
             tags.append("scalar")
         if any(f[0] == "t" and not f[2] for f in factors):
             tags.append("rank0_tensor")
